@@ -229,7 +229,7 @@ def gen_case(rng, kind="mixed", floats=True, explicit=True, esc_names=True, dup=
     if collide:
         opts["flatten"] = True
     nspans = rng.choice([0, 1, 1, 2, 2, 3, 4])
-    if kind == "specialnames":
+    if kind in ("specialnames", "panics"):
         nspans = max(1, nspans)
     callsites = []
     span_cs = []
@@ -264,6 +264,7 @@ def gen_case(rng, kind="mixed", floats=True, explicit=True, esc_names=True, dup=
     parent_of = {}
     entered = []
     nrec = {}
+    aborted = set()
     nevents = 0
     steps = rng.randint(4, 16)
     p_close = 0.10 if kind == "lifecycle" else 0.04
@@ -303,7 +304,14 @@ def gen_case(rng, kind="mixed", floats=True, explicit=True, esc_names=True, dup=
             vals = [[i, gen_value(rng, floats)] for i in idx]
             if rng.random() < 0.1:
                 vals.append([idx[0], gen_value(rng, floats)])     # the same field twice in one record: last wins
-            ops.append({"op": "record", "id": s, "vals": vals})
+            if kind == "panics" and rng.random() < 0.4:
+                # this call unwinds: one of its values has a Debug impl that panics (the harness catches it); the values
+                # before it have already been visited
+                vals[rng.randrange(len(vals))][1] = {"t": "panic", "v": H(rand_string(rng, 6))}
+                ops.append({"op": "record", "id": s, "vals": vals, "caught": True})
+                aborted.add(s)
+            else:
+                ops.append({"op": "record", "id": s, "vals": vals})
             nrec[s] = nrec.get(s, 0) + 1
         else:
             ci = rng.choice(ev_cs)
@@ -316,6 +324,19 @@ def gen_case(rng, kind="mixed", floats=True, explicit=True, esc_names=True, dup=
     if nevents == 0 or rng.random() < 0.5:
         ci = rng.choice(ev_cs)
         ops.append({"op": "event", "cs": ci, "parent": -2, "vals": gen_vals(rng, callsites[ci]["_names"], 0.8, floats)})
+    if kind == "panics":
+        # make sure every span that saw an unwinding record call is used again: a later record (sometimes) and an event in it
+        for sp_id in sorted(x for x in alive if callsites[span_cs[x]]["_names"]):
+            names = callsites[span_cs[sp_id]]["_names"]
+            if sp_id not in aborted:
+                vals = [[i, gen_value(rng, floats)] for i in rng.sample(range(len(names)), rng.randint(1, min(2, len(names))))]
+                vals[0][1] = {"t": "panic", "v": H(rand_string(rng, 6))}
+                ops.append({"op": "record", "id": sp_id, "vals": vals, "caught": True})
+            if rng.random() < 0.5:
+                ops.append({"op": "event", "cs": rng.choice(ev_cs), "parent": sp_id, "vals": []})
+            if rng.random() < 0.7:
+                ops.append({"op": "record", "id": sp_id, "vals": [[rng.randrange(len(names)), gen_value(rng, floats)]]})
+            ops.append({"op": "event", "cs": rng.choice(ev_cs), "parent": sp_id, "vals": []})
     if kind == "lifecycle" and rng.random() < 0.6:
         # wind down: exit everything, close leaves first
         while entered:
@@ -327,7 +348,10 @@ def gen_case(rng, kind="mixed", floats=True, explicit=True, esc_names=True, dup=
     thread = H(rand_string(rng, 8, allow_nul=False)) if rng.random() < 0.5 else None
     for c in callsites:
         del c["_names"]
-    return {"id": 0, "kind": kind, "opts": opts, "thread": thread, "callsites": callsites, "ops": ops}
+    case = {"id": 0, "kind": kind, "opts": opts, "thread": thread, "callsites": callsites, "ops": ops}
+    if kind == "panics":
+        case["only_pl"] = True
+    return case
 
 
 LOG_FIELDS = ["message", "log.target", "log.module_path", "log.file", "log.line"]
@@ -556,9 +580,17 @@ class Sim:
                 if self.stack[j] == op["id"]:
                     del self.stack[j]
                     break
+        elif k == "record" and op.get("caught"):
+            # the call unwound (a value's Debug impl panicked): nothing it carried counts as recorded; what the output shows
+            # under the names it touched is not judged until a later, completed record writes them
+            sp = self.spans[op["id"]]
+            sp.setdefault("uncertain", set()).update(sp["names"][i] for i, _ in op["vals"])
         elif k == "record":
             sp = self.spans[op["id"]]
             sp["nrec"] += 1
+            for i, v in op["vals"]:
+                if carries(v):
+                    sp.setdefault("uncertain", set()).discard(sp["names"][i])
             blocked = any(needs_escape(stored_key(n, v)) for n, v in sp["fields141"].items())
             for i, v in op["vals"]:
                 if carries(v):
@@ -852,6 +884,8 @@ def coq_case(case, tid_hex, lg, timings):
                 ops.append("OEnter %s" % vlib.coq_N(op["id"]))
             elif kind == "exit":
                 ops.append("OExit %s" % vlib.coq_N(op["id"]))
+            elif kind == "record" and op.get("caught"):
+                ops.append("ORecordAborted %s" % vlib.coq_N(op["id"]))
             elif kind == "record":
                 ops.append("ORecord %s %s" % (vlib.coq_N(op["id"]), coq_fields(case, span_cs[op["id"]], op["vals"])))
             elif kind == "close":
@@ -895,7 +929,7 @@ def run_harness(ctx, rep, path, cases, tag, extra=()):
         except ValueError:
             continue
         if "build" in r:
-            build = r["build"] + ("-log" if r.get("log") else "")
+            build = r["build"] + ("-log" if r.get("log") else "") + ("-pl" if r.get("pl") else "")
         elif "id" in r:
             obs[r["id"]] = r
     if rc != 0 or len(obs) != len(cases):
@@ -990,6 +1024,9 @@ def oracle_event(rep, case, sim, op, raw_chunks, flags, prof, ev_index):
             keys = [n] + ([n[2:]] if n.startswith("r#") else [])
             found = [k for k in keys if has(obj, k)]
             seen.update(found)
+            if n in sp.get("uncertain", ()):
+                rep.count("not-judged:span-field-touched-by-an-unwound-record-call")
+                continue
             if log_skipped(sim.lg, n, v):
                 # documented exclusion of the tracing-log build: a `log.*` span field whose value was recorded through
                 # Debug / Display is that crate's metadata and is skipped by design (the key may still hold an older typed
@@ -1019,7 +1056,8 @@ def oracle_event(rep, case, sim, op, raw_chunks, flags, prof, ev_index):
                     out.append(("span field %r = %r, recorded %s" % (n, get(obj, found[0]), json.dumps(v)), None))
             elif len(found) > 1:
                 rep.count("observation:raw-identifier-twin-keys")
-        extra = [k for k, _ in obj if k != "name" and k not in seen]
+        unc = sp.get("uncertain", ())
+        extra = [k for k, _ in obj if k != "name" and k not in seen and k not in unc and ("r#" + k) not in unc]
         if extra:
             out.append(("span object has keys that were never recorded: %r" % extra, None))
         return out
@@ -1192,21 +1230,29 @@ def run(ctx):
             cases.append(gen_race_case(rng, 1000))
         for _ in range(30 * scale):
             cases.append(gen_case(rng, "specialnames", explicit=False, esc_names=False))
+        for _ in range(40 * scale):
+            cases.append(gen_case(rng, "panics", esc_names=False))
     for i, c in enumerate(cases):
         c["id"] = i + 1
     by_id = {c["id"]: c for c in cases}
     # ---- implementation: the same cases on the plain build and on the build with tracing-subscriber's default
     #      `tracing-log` feature (h_json_log); thorough: both also as release builds
-    builds = [(False, False), (False, True)] + ([(True, False), (True, True)] if ctx.thorough() else [])
+    #      a third build has tracing-subscriber's `parking_lot` feature (h_json_pl: the extensions lock does not poison); it
+    #      runs the `panics` stream only (a recorded value's Debug impl panics inside Span::record, caught; the span is used again)
+    GROUPS = {"plain": ("h_json", None, ""), "log": ("h_json_log", ["log"], "-log"), "pl": ("h_json_pl", ["pl"], "-pl")}
+    builds = [(False, g) for g in GROUPS] + ([(True, g) for g in GROUPS] if ctx.thorough() else [])
     impl = []
-    for rel, lg in builds:
-        binname = "h_json_log" if lg else "h_json"
-        ok, paths, log = cargo_build(ctx, "json", [binname] + ([] if lg else ["h_json_forms"]), release=rel, features=["log"] if lg else None)
-        want_build = ("release" if rel else "debug") + ("-log" if lg else "")
+    for rel, grp in builds:
+        lg = grp == "log"
+        binname, feats, suffix = GROUPS[grp]
+        ok, paths, log = cargo_build(ctx, "json", [binname] + (["h_json_forms"] if grp == "plain" else []), release=rel, features=feats)
+        want_build = ("release" if rel else "debug") + suffix
         if not ok:
             rep.tie("build:" + want_build, False, vlib.last_error(log))
             return rep
-        mine = [c for c in cases if lg or not c.get("only_log")]
+        mine = [c for c in cases if (bool(c.get("only_pl")) == (grp == "pl")) and (lg or not c.get("only_log"))]
+        if not mine:
+            continue
         obs, build = run_harness(ctx, rep, paths[binname], [strip_case(c) for c in mine if not c.get("race")], want_build)
         racing = [strip_case(c) for c in mine if c.get("race")]
         if racing:
@@ -1215,12 +1261,12 @@ def run(ctx):
         if build != want_build:
             rep.tie("build-profile:" + want_build, False, "harness reports %r" % build)
         forms = []
-        if not lg:
+        if grp == "plain":
             rc, fout = run_bin(paths["h_json_forms"], timeout=120)
             forms = [json.loads(l) for l in fout.splitlines() if l.startswith("{")] if rc == 0 else []
             if rc != 0 or not forms:
                 rep.tie("run:h_json_forms:" + want_build, False, vlib.last_error(fout)[:300])
-        impl.append((want_build, lg, obs, forms))
+        impl.append((want_build, grp, obs, forms))
         ctx.log("implementation run (%s): %d cases" % (want_build, len(obs)))
     # the serde_json the harness was linked with is the one whose ESCAPE table the translator read
     try:
@@ -1240,8 +1286,12 @@ def run(ctx):
         return any(cs["kind"] == "span" and any(UH(f).startswith("log.") for f in cs["fields"]) for cs in c["callsites"])
 
     models = {}
-    for lg in (False, True):
-        prof0, obs0 = [(prof, obs) for prof, l, obs, _ in impl if l == lg][0]
+    for grp in GROUPS:
+        lg = grp == "log"
+        firsts = [(prof, obs) for prof, g, obs, _ in impl if g == grp]
+        if not firsts:
+            continue
+        prof0, obs0 = firsts[0]
         model = {}
         try:
             terms = []
@@ -1257,29 +1307,30 @@ def run(ctx):
                     tl.append(term)
                 terms.append(("m%d" % i, vlib.coq_list(tl)))
             res = coq_eval(ctx, "From Coq Require Import String Ascii NArith ZArith Bool List.\nFrom TV Require Import Fmt.JsonModel.\nImport ListNotations.\nLocal Open Scope N_scope.",
-                           terms, shards=min(vlib.NCPU, max(1, len(terms))), tag="cases_log" if lg else "cases")
+                           terms, shards=min(vlib.NCPU, max(1, len(terms))), tag="cases_" + grp)
             for i in range(0, len(ids), chunk):
                 for j, per_op in zip(ids[i:i + chunk], res["m%d" % i]):
                     model[j] = (prof0, regroup([[bytes(l) for l in lines] for lines in per_op], groups[j]))
             n_eval = len(model)
-            if lg and False in models:
-                for cid, v in models[False].items():
+            if lg and "plain" in models:
+                for cid, v in models["plain"].items():
                     if cid not in model and not has_log_name(by_id[cid]):
                         model[cid] = v
-            models[lg] = model
-            rep.count("model-evaluated:feat_log=%s" % lg, n_eval)
+            models[grp] = model
+            rep.count("model-evaluated:" + grp, n_eval)
         except Exception as ex:  # ModelEvalError or a parse problem: the tie is broken, the oracle still runs
-            rep.tie("model-eval" + ("-log" if lg else ""), False, str(ex)[:300])
-        ctx.log("model (feat_log=%s) evaluated on %s histories" % (lg, n_eval if lg in models else "no"))
+            rep.tie("model-eval-" + grp, False, str(ex)[:300])
+        ctx.log("model (%s build) evaluated on %s histories" % (grp, n_eval if grp in models else "no"))
 
     # ---- correspondence + oracle
     distinct_lines = set()
     sev_point = {"span": ("sev_new", "new"), "enter": ("sev_enter", "enter"), "exit": ("sev_exit", "exit"), "close": ("sev_close", "close")}
-    for prof, lg, obs, forms in impl:
+    for prof, grp, obs, forms in impl:
+        lg = grp == "log"
         disagree = []
         n_bytes_eq = 0
         n_tree_eq = 0
-        model = models.get(lg)
+        model = models.get(grp)
         obs_of = {p2: ob for p2, l2, ob, _ in impl}
         for c in cases:
             cid = c["id"]
@@ -1333,6 +1384,11 @@ def run(ctx):
                         rep.count("race:overlapped" if info[0][0] else ("race:excluded(second call waited)" if info[0][1] else "race:no-gate-formatted"))
                 elif kind != "close":
                     sim.apply(op)
+                    if op.get("caught"):
+                        rep.count("op:record-unwound-and-caught")
+                        if k not in (r.get("caught") or []):
+                            rep.violation("harness protocol: the record call with a panicking Debug value did not unwind [%s build]" % prof,
+                                          {"case": strip_case(c), "op_index": k, "profile": prof})
                 if eop is None:
                     if chunks:
                         rep.violation("operation %r wrote %d chunk(s) although no record is due [%s build]" % (kind, len(chunks), prof),
